@@ -25,7 +25,8 @@ RULE = ("batches of length <= 3 over 11 entry kinds (ok / raising / unknown / ba
         "'a', 0, -1, 1.5, 0.0, true, false, [1], [], {'a':1}, {}, 10^20), both request forms, x server version x 8 dispatch "
         "kinds (default, instance, custom function returning / raising / returning None, instance _dispatch returning / raising / "
         "raising AttributeError); single requests over the full kind x id product; random batches up to length 12. "
-        "Non-trivial: at least one entry with an id other than a string, or a batch of >= 2 entries. Distinct by case hash.")
+        "Non-trivial: at least one entry with an id other than a string, or a batch of >= 2 entries. Distinct by case hash."
+        " Added after the seeded rounds: entries whose jsonrpc member is any JSON value (null, arrays, objects, true, numbers, '1.0', 'two'); the `overlap` stream of C04 under C03's clauses (ids and pairing when two requests overlap or one is dispatched from inside the other's method).")
 TRUSTED = ["modelled, not verified: json.loads / class translation of the body (the model's input is the outcome of jsonrpclib.loads), "
            "jsonclass.dump of results, json.dumps, CPython argument binding (model: call_binds)",
            "invocation logging wrappers around generated callables (harness/dispatch_support/core.py)"]
